@@ -57,3 +57,53 @@ fn replay_c14() {
     }
     println!("OUT differs={}", differs);
 }
+
+/// Native replay for the chunk-loop law: strings whose encoding is longer than the 1024-byte scratch
+/// buffer, with multi-byte characters placed so that one straddles every chunk boundary, must encode to
+/// the concatenation of their characters' encodings and decode back.
+#[test]
+fn replay_c14_chunks() {
+    let pages = [(932, '\u{65e5}'), (936, '\u{4e2d}'), (949, '\u{d55c}'), (950, '\u{4e2d}'), (1252, '\u{e9}'), (65001, '\u{4e2d}')];
+    let mut witness: Option<String> = None;
+    let mut checked = 0u64;
+    'outer: for (id, wide) in pages.iter() {
+        let cp = CodePage::from_id(*id).expect("known code page id");
+        for shift in 0..4usize {
+            for total in [600usize, 1100, 2300] {
+                for unmappable in [false, true] {
+                    let mut s = String::new();
+                    for _ in 0..shift {
+                        s.push('a');
+                    }
+                    for i in 0..total {
+                        if unmappable && i % 257 == 5 {
+                            s.push('\u{1f600}');
+                        } else {
+                            s.push(*wide);
+                        }
+                    }
+                    let whole = cp.encode(&s);
+                    let mut parts: Vec<u8> = Vec::new();
+                    for ch in s.chars() {
+                        let mut b = [0u8; 4];
+                        parts.extend(cp.encode(ch.encode_utf8(&mut b)));
+                    }
+                    checked += 1;
+                    if whole != parts {
+                        witness = Some(format!("code page {}: a {}-character string (shift {}, unmappable {}) encodes to {} bytes, its characters one by one to {} bytes", id, s.chars().count(), shift, unmappable, whole.len(), parts.len()));
+                        break 'outer;
+                    }
+                    if !unmappable && cp.decode(&whole) != s {
+                        witness = Some(format!("code page {}: a {}-character representable string does not decode back after encoding", id, s.chars().count()));
+                        break 'outer;
+                    }
+                }
+            }
+        }
+    }
+    println!("OUT checked={}", checked);
+    println!("OUT differs={}", if witness.is_some() { 1 } else { 0 });
+    if let Some(w) = witness {
+        println!("OUT witness={}", w);
+    }
+}
